@@ -124,15 +124,144 @@ func roundtrip(ctx context.Context, n int) {
 	out("ok", "", n)
 }
 
+type bulkScenario struct {
+	N     int    `json:"n"`
+	Bulk  string `json:"bulk"`
+	Files int    `json:"files"`
+}
+
+func bulkAll(ctx context.Context, in string, from, count int) {
+	data, err := os.ReadFile(in)
+	if err != nil {
+		fmt.Fprintln(os.Stderr, err)
+		os.Exit(2)
+	}
+	n := 0
+	for line, l := range strings.Split(strings.TrimSpace(string(data)), "\n") {
+		if line < from || (count >= 0 && n >= count) {
+			continue
+		}
+		n++
+		var scs []bulkScenario
+		if err := json.Unmarshal([]byte(l), &scs); err != nil || len(scs) != 1 {
+			b, _ := json.Marshal(map[string]any{"id": line, "status": "error", "error": fmt.Sprint("parse: ", err)})
+			fmt.Println(string(b))
+			continue
+		}
+		st, detail := bulk(ctx, scs[0])
+		res := map[string]any{"id": line, "mode": "bulk", "status": st, "drift": 0}
+		if st == "violation" {
+			res["owner"] = "C14"
+			res["mismatch"] = map[string]any{"step": 0, "kind": "files", "detail": detail}
+		} else if st != "ok" {
+			res["error"] = detail
+		}
+		b, _ := json.Marshal(res)
+		fmt.Println(string(b))
+	}
+}
+
+// bulk: a transaction that leaves sc.N contents behind (rolled back, superseded inside the transaction, or lost to a
+// conflict); once the pool has drained and the collector has run, the roots hold the live contents only.
+func bulk(ctx context.Context, sc bulkScenario) (string, string) {
+	dir, err := os.MkdirTemp("/dev/shm", "bulk")
+	if err != nil {
+		return "error", err.Error()
+	}
+	defer os.RemoveAll(dir)
+	c := cfg(dir)
+	c.Storage.MaxDirCount = 1000000
+	drv.InstallCounters()
+	d, err := drv.OpenInline(c)
+	if err != nil {
+		return "error", err.Error()
+	}
+	defer d.Close()
+	db := d.DB()
+	if err := db.Set(ctx, "keep", []byte("kept")); err != nil {
+		return "error", err.Error()
+	}
+	lvl := fs_db.IsoLevelReadCommitted
+	if sc.Bulk == "conflict" {
+		lvl = fs_db.IsoLevelSerializable
+	}
+	tx, err := db.Begin(ctx, lvl)
+	if err != nil {
+		return "error", err.Error()
+	}
+	for i := 0; i < sc.N; i++ {
+		k := fmt.Sprintf("bulk-%d", i)
+		if sc.Bulk == "conflict" && i == 0 {
+			k = "keep"
+		}
+		if err := tx.Set(ctx, k, []byte{byte(i)}); err != nil {
+			return "error", err.Error()
+		}
+		if sc.Bulk == "supersede" {
+			if err := tx.Set(ctx, k, []byte{byte(i), 1}); err != nil {
+				return "error", err.Error()
+			}
+		}
+	}
+	switch sc.Bulk {
+	case "rollback":
+		err = tx.Rollback(ctx)
+	case "supersede":
+		err = tx.Commit(ctx)
+	case "conflict":
+		if err := db.Set(ctx, "keep", []byte("kept again")); err != nil {
+			return "error", err.Error()
+		}
+		if cErr := tx.Commit(ctx); cErr == nil && sc.N > 0 {
+			return "error", "the conflicting commit succeeded"
+		}
+	}
+	if err != nil {
+		return "error", "end of transaction: " + err.Error()
+	}
+	if !drv.WaitIdle(60 * time.Second) {
+		return "error", "the worker pool did not drain"
+	}
+	if err := d.GC(); err != nil {
+		return "error", err.Error()
+	}
+	if !drv.WaitIdle(60 * time.Second) {
+		return "error", "the worker pool did not drain after the collection"
+	}
+	tree, err := drv.Walk(d.Roots())
+	if err != nil {
+		return "error", err.Error()
+	}
+	ks, err := db.GetKeys(ctx)
+	if err != nil {
+		return "error", err.Error()
+	}
+	if tree.NFiles != len(ks) {
+		return "violation", fmt.Sprintf("a transaction that left %d contents behind (%s): once the pool has drained and the collector has run the roots hold %d content files for %d readable keys",
+			sc.N, sc.Bulk, tree.NFiles, len(ks))
+	}
+	return "ok", ""
+}
+
 func main() {
 	mk := flag.String("make", "", "write a fixture into this directory")
 	ck := flag.String("check", "", "check the fixture in this directory (it is opened read-write: pass a copy)")
+	bulkIn := flag.String("in", "", "scenarios of Bulk.tla: large transactions whose leftovers must all be reclaimed")
+	from := flag.Int("from", 0, "first line of -in")
+	count := flag.Int("count", -1, "number of lines of -in")
+	flag.Int64("seed", 1, "ignored")
+	flag.String("mode", "", "ignored")
+	flag.Bool("fs", true, "ignored")
 	rt := flag.Int("roundtrip", 0, "write this many keys into a fresh database, reopen it, and compare every persisted record and every content")
 	flag.Parse()
 	drv.Quiet()
 	ctx := context.Background()
 	if *rt > 0 {
 		roundtrip(ctx, *rt)
+		return
+	}
+	if *bulkIn != "" {
+		bulkAll(ctx, *bulkIn, *from, *count)
 		return
 	}
 	if *mk != "" {
